@@ -4,7 +4,10 @@ import (
 	"bytes"
 	"errors"
 	"io"
+	"net"
 	"net/http"
+	"net/url"
+	"syscall"
 	"time"
 )
 
@@ -65,6 +68,13 @@ func verif_harness_C06_hit_request_side() { verifC06Hit(true) }
 //
 //verif:harness unwind=64 replay=none
 func verif_harness_C06_hit_response_side() { verifC06Hit(false) }
+
+// The same harness registered for C04: a released hit enters the transport
+// exactly once on every exit path (the BMC harnesses replace hit by a model,
+// so what hit itself does with the release is checked here).
+//
+//verif:harness unwind=64 replay=none
+func verif_harness_C04_hit_enters_transport_once() { verifC06Hit(false) }
 
 // The same harness registered for C05: its timestamp/latency obligations
 // (timestamp between attack start and transport entry, latency covers the
@@ -145,7 +155,16 @@ func verifC06Hit(requestSide bool) {
 			contentLength = int64(n) + 1 + int64(verif_choose("declared_beyond_body", 2))
 		}
 	}
+	transportErrKind := 0
+	if transportFails && !failsWithResponse {
+		transportErrKind = verif_choose("transport_error_kind", 4)
+	}
+	doCalls := 0
 	verif_stub("(*net/http.Client).Do", func(c *http.Client, req *http.Request) (*http.Response, error) {
+		doCalls++
+		if doCalls > 1 {
+			return nil, errors.New("model: second transport entry")
+		}
 		tEntry = tick()
 		seen = req
 		if req.Body != nil {
@@ -161,6 +180,16 @@ func verifC06Hit(requestSide bool) {
 			return &http.Response{StatusCode: status, Status: "status text", Header: respHeader, Body: body, ContentLength: contentLength}, errors.New("model: stopped after 10 redirects")
 		}
 		if transportFails {
+			// the kinds of error a transport reports: a plain one, a reset or
+			// broken pipe of a pooled connection, an unexpected end of stream
+			switch transportErrKind {
+			case 1:
+				return nil, &url.Error{Op: "Post", URL: tgt.URL, Err: &net.OpError{Op: "read", Net: "tcp", Err: syscall.ECONNRESET}}
+			case 2:
+				return nil, &url.Error{Op: "Post", URL: tgt.URL, Err: &net.OpError{Op: "write", Net: "tcp", Err: syscall.EPIPE}}
+			case 3:
+				return nil, &url.Error{Op: "Post", URL: tgt.URL, Err: io.EOF}
+			}
 			return nil, errors.New("model: dial tcp: connection refused")
 		}
 		return &http.Response{StatusCode: status, Status: "status text", Header: respHeader, Body: body, ContentLength: contentLength}, nil
@@ -173,6 +202,10 @@ func verifC06Hit(requestSide bool) {
 	if seen == nil {
 		return
 	}
+	// C04/C05/C06: one hit is one exchange — the transport is entered exactly
+	// once per released hit, whatever the outcome (no silent retry, which
+	// would be a request the pacer never released)
+	verif_assert(doCalls == 1, "C06.one-transport-entry-per-hit")
 	verif_assert(seen.Method == tgt.Method && seen.URL.String() == tgt.URL, "C06.request-method-and-url")
 	verif_assert(bytes.Equal(sentBody, tgt.Body) && seen.ContentLength == int64(len(tgt.Body)), "C06.request-body")
 	verif_assert((seen.Body == nil) == (len(tgt.Body) == 0), "C06.empty-body-is-no-body")
